@@ -893,6 +893,25 @@ def check_C12(ctx):
 # ---------------------------------------------------------------------------
 # C13  csv exports
 # ---------------------------------------------------------------------------
+ODD_FRAGMENTS = [b"\xc0\x80", b"\xed\xa0\x80", b"\xf4\x90\x80\x80", b"\xe2\x82", b"\x80", b"\xbf", b"\xff", b"\xfe", b"\xf8\x88\x80\x80\x80", b"\xc2\xa0", b"\xe2\x80\xa8",
+                 b"\xe3\x80\x80", b"\xc2\x85", b"\xe1\x9a\x80", b"\xe2\x80\x8b", b"\xef\xbb\xbf", b"\x0b", b"\x0c", b"\x00", b"\x1f", b"\x7f", b"\x1b[31m", b"a", b"Zq", b"0", b"%", b"%s", b"\\",
+                 b"\xf0\x9f\x8d\x8e", b"e\xcc\x81", b"\xd0\x96", b"\xe7\xb1\xb3", b",", b"\"", b";", b" ", b"\t", b"/", b"\r", b"'", b"{{.}}", b"$"]
+
+def odd_name(r, lo=1, hi=14):
+    """a name over arbitrary bytes: invalid UTF-8 (overlong, surrogate, beyond U+10FFFF, truncated, stray continuation), Unicode spaces, control characters,
+    escape sequences, template and format metacharacters. One line; the ends are outside the parser's trim set, the first byte is not '#'."""
+    s = b"".join(r.choice(ODD_FRAGMENTS) for _ in range(r.randint(lo, hi)))
+    s = s.strip(b"\t \n:\"-\r").lstrip(b"#")
+    s = s.strip(b"\t \n:\"-\r")
+    return s or b"\xffx"
+
+def odd_names_files(r):
+    names = [odd_name(r) for _ in range(r.randint(2, 5))] + [odd_name(r, 12, 40)]
+    els = [odd_name(r, 1, 6) for _ in range(2)]
+    book = b"".join(n + b":\n" + b"".join(b"  " + e + b": " + gen.number(r, True).encode() + b"\n" for e in r.sample(els, r.randint(1, 2))) for n in names[:2])
+    log = b"".join(b"2021/01/%02d:\n" % (d + 1) + b"".join(b"  " + r.choice(names) + b": " + gen.number(r, True).encode() + b"\n" for _ in range(r.randint(1, 4))) for d in range(r.randint(1, 3)))
+    return {"food.yaml": book, "log.yaml": log}, names, els
+
 def check_C13(ctx):
     r = ctx.rng
     cases = []; metas = []
@@ -910,6 +929,26 @@ def check_C13(ctx):
             cases.append(c); metas.append(w)
         ctx.nontriv(f["food.yaml"] + f["log.yaml"])
         if k < 1: ctx.sample(dict(book=f["food.yaml"], log=f["log.yaml"]))
+    # names over arbitrary bytes (invalid UTF-8, Unicode spaces, control characters): what is quoted and how is decided on runes and bytes
+    oddc = []
+    for k in range(ctx.scale(150, 3000)):
+        f, _, _ = odd_names_files(r)
+        for cmd in ("csv-log", "csv-db", "csv-db-resolved"): oddc.append(dict(files=f, cmd=cmd, **NOCOLOR))
+        ctx.nontriv(f["food.yaml"] + f["log.yaml"])
+    ores = cli_diff(ctx, oddc, tag="C13:odd-names:")
+    for c, i in zip(oddc, ores):
+        if i["status"] != "ok": continue
+        try:
+            rows = list(pycsv.reader(io.StringIO(i["stdout"].decode("utf-8", "surrogateescape"), newline=""), strict=True))
+        except Exception as e:
+            ctx.violation("C13:not-rfc4180:" + c["cmd"], "the export is not readable as CSV: %r" % (e,), dict(kind="cli", case=c, impl=i)); continue
+        if any(len(row) != 3 for row in rows):
+            ctx.violation("C13:not-rfc4180:" + c["cmd"], "a row of the export does not have three fields", dict(kind="cli", case=c, impl=i))
+        srcb = c["files"]["log.yaml" if c["cmd"] == "csv-log" else "food.yaml"]
+        for row in rows:
+            nm = row[1 if c["cmd"] == "csv-log" else 0].encode("utf-8", "surrogateescape")
+            if nm not in srcb:
+                ctx.violation("C13:name-not-preserved:" + c["cmd"], "the exported name %r does not occur in the source file" % nm, dict(kind="cli", case=c, impl=i)); break
     ires = cli_diff(ctx, cases, tag="C13:")
     # the model's own RFC 4180 reader and Python's csv module as two independent readers of the implementation's output
     oks = [(c, i, w) for c, i, w in zip(cases, ires, metas) if i["status"] == "ok"]
@@ -1089,6 +1128,16 @@ def check_C15(ctx):
         groups.append(g)
         ctx.nontriv(f["food.yaml"] + f["log.yaml"])
         if k < 1: ctx.sample(dict(book=f["food.yaml"], log=f["log.yaml"]))
+    # names over arbitrary bytes: column padding and shortening count runes (an invalid byte is one rune), the old reporter and the templates must agree
+    oddc = []
+    for k in range(ctx.scale(60, 1500)):
+        f, names, els = odd_names_files(r)
+        for extra in (dict(cmd="reg"), dict(cmd="reg", shorten=True), dict(cmd="reg", template="left-aligned"), dict(cmd="reg", old=True), dict(cmd="reg", shorten=True, totals_only=True),
+                      dict(cmd="reg", single_element=(els[0] if b"\x00" not in els[0] else b"kcal").decode("utf-8", "surrogateescape")), dict(cmd="reg", single_food="a"), dict(cmd="bal"), dict(cmd="bal", collapse=True),
+                      dict(cmd="quantity"), dict(cmd="totals"), dict(cmd="unresolved"), dict(cmd="print"), dict(cmd="summary", arg=b"2021/01/01")):
+            c = dict(files=f, **extra); c.update({} if r.random() < 0.3 else NOCOLOR); oddc.append(c)
+        ctx.nontriv(f["food.yaml"] + f["log.yaml"])
+    cli_diff(ctx, oddc, tag="C15:odd-names:")
     # amounts that print as 0.00 / -0.00 but are not zero keep the colour of their sign; names that are path-prefixes of others in the balance
     for k in range(ctx.scale(12, 300)):
         tiny = [r.choice(["0.004", "-0.003", "0.0049", "-0.0049", "0.001", "-0.0001", "0.005", "-0.005", "0", "-0", "1e-9"]) for _ in range(4)]
